@@ -20,6 +20,7 @@ THEOREM_FILE = "Props/C01.v"
 # C01_grammar: the declarative dotted-quad / RFC 4291 grammar (Proofs/C01_Grammar.v PART 1) and the theorems that the
 # Std oracles, the fallback parsers, str_to_int and IPAddress(.., INET_PTON) accept exactly the derivable strings
 EXTRA_THEOREM_FILES = ["Props/C01_grammar.v"]
+EXTRA_THEOREM_FILES.append("Props/C01_src.v")     # SRCC: source tie, translated source = model (DESIGN 5.1b)
 BACKENDS = [None, "fallback"]
 RULE = ("values: boundary values of both families, every zero/non-zero pattern of the 8 hextets with several fillers, "
         "IPv4-compatible/mapped shapes, random dense/sparse values; each printed in every dialect and re-parsed with "
